@@ -21,7 +21,7 @@ RULE = ("TLC enumerates solution descriptors per dimension with the other dimens
         "write_to_file calls to one path x 5 documents of different length x overwrite on/off, each followed by "
         "CommonRoadSolutionReader.open; plus random histories of 3..6 writes); mutate-after-construction histories (object built or read from a "
         "document, then each public attribute - planning_problem_id, cost_function, vehicle_type, trajectory, kind, "
-        "scenario_id, computation_time, processor_name, date - re-assigned, alone and together, single and cooperative); all 8 metadata presence subsets, every computation-time class / date token / processor-name text class "
+        "scenario_id, computation_time, processor_name, date - re-assigned, alone and together, single and cooperative); all 8 metadata presence subsets, every computation-time class / date token (naive with and without microseconds, extreme years, timezone-aware, date-only, default) / processor-name text class "
         "(plain, (R)/(TM), XML specials, blanks, non-ASCII, empty, 200 chars, auto, tabs/newlines) / scenario-id token; "
         "every sequence of 2..3 kinds as a cooperative solution (in and out of schema order, ids ascending and not); "
         "plus a seeded random sample mixing all dimensions.  Each descriptor is built through public constructors, "
@@ -64,7 +64,10 @@ _PROC = {"plain": "AMD Ryzen 7 5800X 8-Core Processor", "tm": "Intel(R) Core(TM)
 _PROC_EITHER = ("auto", "ws")        # only used to COUNT band cases for the evidence; the band is declared in the spec
 _DATE = {"plain": (2020, 5, 17, 13, 45, 9, 0), "micro": (2021, 12, 31, 23, 59, 59, 999999),
          "micro1": (2023, 6, 30, 12, 0, 0, 1), "midnight": (2022, 1, 1, 0, 0, 0, 0),
-         "eoy": (2023, 12, 31, 23, 59, 59, 0), "leap": (2024, 2, 29, 6, 7, 8, 500000)}
+         "eoy": (2023, 12, 31, 23, 59, 59, 0), "leap": (2024, 2, 29, 6, 7, 8, 500000),
+         "y1970": (1970, 1, 1, 0, 0, 0, 0), "y9999": (9999, 12, 31, 23, 59, 59, 999999),
+         "utc": (2021, 3, 4, 5, 6, 7, 0), "tzplus": (2021, 3, 4, 23, 30, 7, 250000),       # see _date_value
+         "tzminus": (2021, 1, 1, 0, 15, 59, 0), "dateonly": (2021, 3, 4)}
 # cooperative, country, map name, map id, configuration id, obstacle behavior, prediction id, version
 _SCEN = {"T": (False, "USA", "US101", 1, 1, "T", 1, "2020a"), "S": (False, "DEU", "Muc", 4, 2, "S", 1, "2020a"),
          "I": (False, "CHN", "Sha", 11, 3, "I", [1, 2], "2020a"), "coop": (True, "USA", "Lanker", 1, 2, "T", 1, "2020a"),
@@ -299,7 +302,7 @@ def _build(sol):
         fields.append(attrs + ["time_step"])
     kw = {}
     if sol["date"] != "default":
-        kw["date"] = None if sol["date"] == "None" else datetime(*_DATE[sol["date"]])
+        kw["date"] = None if sol["date"] == "None" else _date_value(sol["date"])
     if sol["ct"] != "None":
         kw["computation_time"] = _CT[sol["ct"]]
     if sol["proc"] != "None":
@@ -321,6 +324,16 @@ def _permute_states(text, sol):
     return etree.tostring(root, encoding="unicode")
 
 
+def _date_value(tok):
+    from datetime import date, datetime, timedelta, timezone
+    v = _DATE[tok]
+    if tok == "dateonly":
+        return date(*v)
+    tz = {"utc": timezone.utc, "tzplus": timezone(timedelta(hours=2)),
+          "tzminus": timezone(-timedelta(hours=5, minutes=30))}.get(tok)
+    return datetime(*v, tzinfo=tz)
+
+
 def _meta_value(key, tok):
     from datetime import datetime
     from commonroad.scenario.scenario import ScenarioID
@@ -328,7 +341,7 @@ def _meta_value(key, tok):
         return ScenarioID(*_SCEN[tok])
     if tok == "None":
         return None
-    return {"ct": _CT, "proc": _PROC}[key][tok] if key != "date" else datetime(*_DATE[tok])
+    return {"ct": _CT, "proc": _PROC}[key][tok] if key != "date" else _date_value(tok)
 
 
 def _with_history(sol, init, origin, cur):
@@ -534,8 +547,21 @@ def execute(case):
                                                   lambda o, b: _bits(o) == _bits(b), "exact"), lambda x: x))
     item("ProcessorName", proc=guard(lambda: meta(real.processor_name, back.processor_name,
                                                   lambda o, b: o == b, "equal"), lambda x: x))
-    item("Date", date=guard(lambda: meta(real.date, back.date,
-                                         lambda o, b: o.replace(microsecond=0) == b, "equal"), lambda x: x))
+    wall = lambda d: [getattr(d, a, 0) for a in ("year", "month", "day", "hour", "minute", "second")]
+
+    def tz():
+        o, b = getattr(real.date, "tzinfo", None), getattr(back.date, "tzinfo", None)
+        if o is None and b is None:
+            return "none"
+        if b is None:
+            return "dropped"
+        if o is None:
+            return "added"
+        return "kept" if real.date.utcoffset() == back.date.utcoffset() else "changed"
+
+    # "to the second": the wall-clock fields year..second (a datetime.date has 00:00:00); tzinfo is projected separately
+    item("Date", date=guard(lambda: meta(real.date, back.date, lambda o, b: wall(o) == wall(b), "equal"), lambda x: x),
+         tz=guard(tz, lambda x: x))
     return {"ev": ev}
 
 
